@@ -26,6 +26,7 @@ import (
 	"perun.network/go-perun/client"
 	"perun.network/go-perun/wallet"
 	"perun.network/go-perun/wire"
+	"perun.network/go-perun/wire/perunio"
 )
 
 // ToLedgerChannelProposalMsg converts a protobuf Envelope_LedgerChannelProposalMsg to a client
@@ -45,7 +46,14 @@ func ToLedgerChannelProposalMsg(protoEnvMsg *Envelope_LedgerChannelProposalMsg) 
 		return nil, errors.WithMessage(err, "participant address")
 	}
 	msg.Peers, err = ToWireAddrs(protoMsg.GetPeers())
-	return msg, errors.WithMessage(err, "peers")
+	if err != nil {
+		return nil, errors.WithMessage(err, "peers")
+	}
+	// Same bounds as the perunio decoder of the message enforces.
+	if len(msg.Peers) < channel.MinNumParts || len(msg.Peers) > channel.MaxNumParts {
+		return nil, fmt.Errorf("expected %d-%d participants, got %d", channel.MinNumParts, channel.MaxNumParts, len(msg.Peers))
+	}
+	return msg, nil
 }
 
 // ToSubChannelProposalMsg converts a protobuf Envelope_SubChannelProposalMsg to a client SubChannelProposalMsg.
@@ -207,6 +215,9 @@ func ToBaseChannelProposal(protoProp *BaseChannelProposal) (prop client.BaseChan
 		return prop, errors.WithMessage(err, "init bals")
 	}
 	prop.FundingAgreement = ToBalances(protoProp.GetFundingAgreement())
+	if err = checkBalances(prop.FundingAgreement); err != nil {
+		return prop, errors.WithMessage(err, "funding agreement")
+	}
 	prop.App, prop.InitData, err = ToAppAndData(protoProp.GetApp(), protoProp.GetInitData())
 	copy(prop.Aux[:], protoProp.GetAux())
 	return prop, err
@@ -306,7 +317,46 @@ func ToAllocation(protoAlloc *Allocation) (alloc *channel.Allocation, err error)
 		}
 	}
 	alloc.Balances = ToBalances(protoAlloc.GetBalances())
-	return alloc, nil
+	// Enforce what the perunio decoder of an allocation enforces: the limits
+	// on the number of assets, participants and sub-allocations, the length of
+	// the amounts, and the consistency of the dimensions.
+	if err = checkBalances(alloc.Balances); err != nil {
+		return nil, errors.WithMessage(err, "balances")
+	}
+	for i := range alloc.Locked {
+		if err = checkBals(alloc.Locked[i].Bals, channel.MaxNumAssets); err != nil {
+			return nil, errors.WithMessagef(err, "%d'th sub alloc", i)
+		}
+	}
+	return alloc, alloc.Valid()
+}
+
+// checkBalances returns an error if the balances exceed the limits on the
+// number of assets and participants or on the length of an amount.
+func checkBalances(balances channel.Balances) error {
+	if len(balances) > channel.MaxNumAssets {
+		return fmt.Errorf("expected maximum number of assets %d, got %d", channel.MaxNumAssets, len(balances))
+	}
+	for i := range balances {
+		if err := checkBals(balances[i], channel.MaxNumParts); err != nil {
+			return errors.WithMessagef(err, "%d'th balance", i)
+		}
+	}
+	return nil
+}
+
+// checkBals returns an error if there are more than maxLen amounts or if an
+// amount is longer than the perunio encoding allows.
+func checkBals(bals []channel.Bal, maxLen int) error {
+	if len(bals) > maxLen {
+		return fmt.Errorf("expected maximum number of amounts %d, got %d", maxLen, len(bals))
+	}
+	for i := range bals {
+		if len(bals[i].Bytes()) > perunio.MaxBigIntLength {
+			return fmt.Errorf("%d'th amount is too long", i)
+		}
+	}
+	return nil
 }
 
 // ToBalances converts a protobuf Balances to a channel.Balances.
